@@ -27,6 +27,7 @@ def build_replicas(sdir):
     srcs = sorted(f for f in os.listdir(src) if f.endswith(".c"))
     reps = {}
     prev = cc1
+    problem = None
     for stage in (1, 2, 3):
         d = os.path.join(sdir, "s%d" % stage)
         os.makedirs(d, exist_ok=True)
@@ -42,11 +43,14 @@ def build_replicas(sdir):
                 procs.append((f, subprocess.Popen([prev, "-c", "-o", o, f], cwd=src, stdout=subprocess.PIPE, stderr=subprocess.STDOUT)))
             for f, p in procs:
                 out, _ = p.communicate()
-                if p.returncode != 0:
-                    return None, "stage %d: the stage-%d compiler fails on %s (status %d):\n%s" % (stage, stage - 1, f, p.returncode, out.decode(errors="replace")[-1500:])
+                if p.returncode != 0 and not problem:
+                    problem = "stage %d: the stage-%d compiler fails on %s (status %d):\n%s" % (stage, stage - 1, f, p.returncode, out.decode(errors="replace")[-1500:])
+            if problem:
+                break
             r = sh(["gcc", "-o", os.path.join(d, "chibicc")] + objs)
             if r.returncode:
-                return None, "stage %d does not link:\n%s" % (stage, r.stdout.decode(errors="replace")[-1500:])
+                problem = "stage %d does not link:\n%s" % (stage, r.stdout.decode(errors="replace")[-1500:])
+                break
         if not os.path.exists(os.path.join(d, "include")):
             os.symlink(os.path.join(src, "include"), os.path.join(d, "include"))
         reps[stage] = d
@@ -59,7 +63,7 @@ def build_replicas(sdir):
         if r.returncode:
             raise BuildError("envshim: " + r.stdout.decode())
     shutil.copy(so, os.path.join(sdir, "libenvsim.so"))
-    return reps, None
+    return reps, problem
 
 
 # ------------------------------------------------------------------ environments
@@ -116,7 +120,7 @@ OPTION_SETS = [["-S"], ["-S"], ["-S", "-fPIC"], ["-S", "-fno-common"], ["-S", "-
                ["-M"], ["-MD", "-S"], ["-MD", "-MP", "-c"], ["-S", "-DFOO=1", "-DBAR"], ["-S", "-U__x86_64__"], ["-E", "-DM(x)=x+1"], ["-S", "-include", "stddef.h"]]
 
 
-def gen_case(seed, src, own, tests):
+def gen_case(seed, src, own, tests, avail=None):
     r = Rng(seed)
     x = r.below(20)
     if x < 2:
@@ -130,6 +134,9 @@ def gen_case(seed, src, own, tests):
     opts = list(r.pick(OPTION_SETS))
     ra = r.pick([1, 1, 2, 2, 3])
     rb = r.pick([1, 2, 2, 3, 3])
+    if avail:
+        ra = ra if ra in avail else max(avail)
+        rb = rb if rb in avail else max(avail)
     e1, e2 = gen_env(r), gen_env(r)
     same_env = r.below(5) == 0 and ra != rb      # pure stage equivalence: different replica, same environment
     if same_env:
@@ -292,7 +299,7 @@ def worker(args):
     while time.monotonic() < t_end:
         seed = mix(master, k)
         k += step
-        case = gen_case(seed, src, own, tests)
+        case = gen_case(seed, src, own, tests, sorted(reps))
         try:
             if os.path.exists(stats_file):
                 os.unlink(stats_file)
@@ -377,7 +384,7 @@ def det_worker(args):
     n = bad = 0
     msgs = []
     for k in range(start, total, step):
-        case = gen_case(mix(master ^ 0xDE7, k), src, own, tests)
+        case = gen_case(mix(master ^ 0xDE7, k), src, own, tests, sorted(reps))
         infile, text = materialise(case, src, wdir)
         a1 = run_replica(sdir, reps, case["a"], case["e1"], infile, case["opts"], src, wdir, None)
         a2 = run_replica(sdir, reps, case["a"], case["e1"], infile, case["opts"], src, wdir, None)
@@ -399,12 +406,14 @@ def fixpoint(sdir, reps, src, rep, stats):
     n = 0
     for f in own:
         outs = {}
-        for stage in (1, 2, 3):
+        for stage in sorted(reps):
             e = gen_env(r)
             res = run_replica(sdir, reps, stage, e, f, ["-S"], src, wdir, None)
             outs[stage] = res
             n += 1
         for a, b in ((1, 2), (2, 3)):
+            if a not in outs or b not in outs:
+                continue
             d = diff_fields(outs[a], outs[b])
             if d:
                 case = {"seed": 0, "input": os.path.relpath(f, src), "mutated": False, "mut_seed": 0, "opts": ["-S"], "a": a, "b": b, "e1": gen_env(r), "e2": gen_env(r)}
@@ -428,13 +437,6 @@ def main(argv):
         print("HARNESS-ERROR property=%s cannot build: %s" % (PROP, e))
         return 2
     src = os.path.join(sdir, "src")
-    if problem:
-        rep.clean_replays()
-        rp = save_replay(PROP, 0, {"engine": "envsim", "property": PROP, "class": "bootstrap-fails", "text": problem})
-        rep.violation("class=bootstrap-fails", rp, problem)
-        rc = rep.finish()
-        write_evidence(PROP, tier, master, "exploration", {"evaluations": 1, "distinct_nontrivial": 0, "rule": "bootstrap failed", "samples": [problem[:300]]}, [], now() - t0, 1)
-        return rc
     if "--replay" in argv:
         path = argv[argv.index("--replay") + 1]
         plan = json.load(open(path))
@@ -450,6 +452,12 @@ def main(argv):
 
     rep.clean_replays()
     stats = {}
+    if problem:
+        # the self-compiled compiler cannot even be built: that is a violation by itself; the comparisons
+        # below go on with the stages that exist, which usually names the cause (e.g. a dependence on heap contents)
+        rp = save_replay(PROP, 0, {"engine": "envsim", "property": PROP, "class": "bootstrap-fails", "text": problem,
+                                   "case": {"input": "main.c", "mutated": False, "mut_seed": 0, "opts": ["-S"], "a": 1, "b": max(reps), "e1": gen_env(Rng(1)), "e2": gen_env(Rng(1))}})
+        rep.violation("class=bootstrap-fails", rp, problem)
     fixpoint(sdir, reps, src, rep, stats)
     import multiprocessing as mp
     seconds = 50 if tier == "quick" else 1100
